@@ -938,7 +938,11 @@ class Watcher(object):
 
         if not self.is_stopped():
             if len(self.processes) < self.numprocesses:
-                self.reap_processes()
+                # only reap the dead ones: reap_process() waits for the
+                # process to terminate and would block on a live worker
+                for process in list(self.processes.values()):
+                    if process.status in (DEAD_OR_ZOMBIE, UNEXISTING):
+                        self.reap_process(process.pid)
                 yield self.spawn_processes()
             return
 
